@@ -18,7 +18,6 @@ import (
 	"math"
 	"os"
 	"reflect"
-	"runtime"
 	"sort"
 	"strconv"
 	"strings"
@@ -623,10 +622,7 @@ func mutate(r *hx.Rng, b []byte) []byte {
 
 func genDec(a hx.Args) {
 	r := hx.NewRng(a.Seed)
-	per := a.N(16, 60)
-	hangQuota := 3
-	dropped := 0
-	runtime.GOMAXPROCS(4) // pre-screened inputs that loop leave a spinning goroutine behind until gen exits: bound the burn
+	per := a.N(16, 100)
 	emit := func(e *entry, ver int, b []byte) {
 		hx.Emit("dec %s %d %s", e.name, ver, hx.Hex(nonNil(b)))
 	}
@@ -657,36 +653,32 @@ func genDec(a hx.Args) {
 				if e.verF && len(b) >= 2 && r.Chance(70) { // keep the embedded version in range most of the time
 					b[0], b[1] = 0, byte(v)
 				}
-				// pre-screen: inputs that keep the decoder looping (tag count from the input) are kept only up to a quota
-				if res := decodeOnce(e, ver, b, 40*time.Millisecond); res == "hang" {
-					if hangQuota == 0 {
-						dropped++
-						continue
-					}
-					hangQuota--
-				}
 				emit(e, ver, b)
 			}
 		}
 	}
-	fmt.Fprintf(os.Stderr, "c16 gen: %d looping inputs dropped by the pre-screen (quota 3 kept)\n", dropped)
-	// small-scope enumeration: every 1-byte input for every type/version (thorough: every 2-byte input for a sample)
+	// small-scope enumeration of 1-byte inputs: a sample per type-version (quick 1, thorough 4), all 256 for three representative types
+	sweep := map[string]bool{"ApiVersionsRequest": true, "Record": true, "StickyMemberMetadata": true}
 	for i := range registry {
 		e := &registry[i]
 		for _, ver := range versionsOf(e, true) {
 			if ver > e.maxV && !e.verF {
 				continue
 			}
-			step := 1
+			step := 64
 			if a.Tier != "thorough" {
 				step = 256
+			}
+			if sweep[e.name] && a.Tier == "thorough" {
+				step = 1
 			}
 			for x := int(r.Intn(step)); x < 256; x += step {
 				emit(e, ver, []byte{byte(x)})
 			}
 		}
 	}
-	// deliberate witnesses of the unbounded tag-count loop (DESIGN §8-i): a flexible message whose tag count is huge
+	// the former witnesses of the unbounded tag-count loop (DESIGN §8-i, repaired in /repo 994d56c): a flexible message whose tag
+	// count is 2^32-1 with nothing behind it must now be refused at once
 	for _, name := range []string{"ApiVersionsRequest", "ListOffsetsRequest"} {
 		e := byName[name]
 		if e == nil {
@@ -793,7 +785,7 @@ func runDec(t []string) string {
 		return res
 	}
 	if res == "hang" {
-		hx.St.Inc("dec.outcome.hang(tag-count-unbounded-loop)")
+		hx.St.Inc("dec.outcome.hang")
 		return res
 	}
 	a := alloc <= allocBase+allocFactor*uint64(len(src))
